@@ -202,6 +202,11 @@ pub fn gen_case(seed: u64, idx: u64, thorough: bool) -> (HistorySpec, String, bo
     // optional setup versions so that handles can start from different read versions
     let mut pre_ops = vec![];
     let mut pre_alloc = IdAlloc::new(8);
+    // a BTree on the key makes merge_insert join through the index (and through the row-id index
+    // when stable row ids are on)
+    if idx % 4 == 3 {
+        pre_ops.push(Op::CreateIndex { col: "id", name: "idx_id".into() });
+    }
     if rng.chance(1, 2) {
         match rng.below(3) {
             0 => pre_ops.push(Op::Append { ids: pre_alloc.take(rng.urange(1, 3)), salt: 77 }),
@@ -249,7 +254,11 @@ pub fn gen_case(seed: u64, idx: u64, thorough: bool) -> (HistorySpec, String, bo
     };
     let spec = HistorySpec {
         name: format!("c04-{seed}-{idx}"),
-        stable_row_ids: rng.bool(),
+        // BTree on `id` only with address-style row ids: with stable row ids every plan that goes
+        // through the index hits the known `mask_to_offset_ranges` defect (wrong / duplicated /
+        // missing rows: "Ambiguous merge insert", "rowid not found in index", updates applied to the
+        // neighbouring row). Re-enable (`rng.bool()`) once lance-table/src/rowids.rs:409-430 is fixed.
+        stable_row_ids: if idx % 4 == 3 && std::env::var("E_CONC_STABLE_WITH_ID_INDEX").is_err() { let _ = rng.bool(); false } else { rng.bool() },
         v2_manifest_paths: rng.chance(1, 4),
         frags,
         rows_per_frag: rpf,
@@ -304,6 +313,28 @@ pub fn check_error_classes(out: &HistoryOutcome) -> Vec<Finding> {
     for r in &out.results {
         if let Err((c, m)) = &r.result {
             if r.op.is_row_mutation() && !is_conflict_class(c) {
+                let key_index = out.spec.pre_ops.iter().any(|o| matches!(o, Op::CreateIndex { col: "id", .. }));
+                let column_rewrite_committed = out.spec.pre_ops.iter().any(|o| matches!(o, Op::MergeCol { .. }))
+                    || out.results.iter().any(|x| x.result.is_ok() && matches!(x.op, Op::MergeCol { .. }));
+                if m.contains("Ambiguous merge insert")
+                    || (key_index && column_rewrite_committed && m.contains("Attempt to merge two RecordBatch with different sizes"))
+                {
+                    // our sources never hold a key twice: the duplicate comes from Lance's own join
+                    f.push(Finding {
+                        signature: "merge_insert-through-key-index-reports-ambiguous-match".into(),
+                        what: format!("{} (source keys are unique) failed with {c}: {}", r.op.kind(), m.chars().take(160).collect::<String>()),
+                        detail: json!({"op": r.describe()}),
+                    });
+                    continue;
+                }
+                if m.contains("rowid not found in index") {
+                    f.push(Finding {
+                        signature: "retried-merge_insert-fails-with-internal-error:rowid-not-found-in-index".into(),
+                        what: format!("{} lost a race and its re-execution failed with {c}: {}", r.op.kind(), m.chars().take(160).collect::<String>()),
+                        detail: json!({"op": r.describe()}),
+                    });
+                    continue;
+                }
                 f.push(Finding {
                     signature: format!("loser-fails-with-non-conflict-error:{}:{}", r.op.kind(), c),
                     what: format!("{} failed with {c} instead of a commit conflict: {}", r.op.kind(), m.chars().take(200).collect::<String>()),
